@@ -11,7 +11,9 @@ import (
 	"os"
 	"math"
 	"sort"
+	"strconv"
 	"strings"
+	"sync"
 )
 
 type Event struct {
@@ -810,6 +812,42 @@ func unprefixedSite(site string) bool {
 	return false
 }
 
+// The listed hash-alias finding is identified by the *shapes* at which preimages of different
+// hashing sites coincide on the unchanged tree: (site, site, preimage length class). Only
+// those shapes are assumed away; a new coincidence (another site pair or length) stays under
+// check. aliasShapes == nil: no shape list given (every cross-site coincidence that involves an
+// un-prefixed site is assumed away, the behaviour the list was recorded with).
+var (
+	aliasShapes   map[string]bool
+	recordShapes  map[string]bool
+	recordShapeMu sync.Mutex
+)
+
+func shapeKey(s1, s2 string, n int) string {
+	if s2 < s1 {
+		s1, s2 = s2, s1
+	}
+	c := strconv.Itoa(n)
+	if n >= 16 {
+		c = "big"
+		if n%8 == 0 {
+			c = "8n"
+		}
+	}
+	return s1 + " " + s2 + " " + c
+}
+
+// aliasExcluded: is the coincidence of preimages of these two sites part of the listed finding?
+func aliasExcluded(s1, s2 string, n int) bool {
+	k := shapeKey(s1, s2, n)
+	if recordShapes != nil {
+		recordShapeMu.Lock()
+		recordShapes[k] = true
+		recordShapeMu.Unlock()
+	}
+	return aliasShapes == nil || aliasShapes[k]
+}
+
 func isHashVar(t *Term) bool { return t.op == OVar && strings.HasPrefix(t.name, "h64_") }
 
 // hashApply returns the idealised FNV-1a code of the byte sequence.
@@ -831,7 +869,7 @@ func (p *Path) hashApply(pre []*Term, site string) *Term {
 		h = tt.BV(64, fnv64a(bs))
 		for _, a := range p.apps {
 			if a.h == h {
-				if p.known["hash.alias"] && site != a.site && (unprefixedSite(site) || unprefixedSite(a.site)) {
+				if p.known["hash.alias"] && site != a.site && (unprefixedSite(site) || unprefixedSite(a.site)) && aliasExcluded(site, a.site, len(pre)) {
 					p.flags["excluded:hash.alias"] = true
 					panic(pathEnd{"assumed", "hash.alias"})
 				}
@@ -875,7 +913,7 @@ func (p *Path) hashApply(pre []*Term, site string) *Term {
 			}
 			p.preEqOf[[2]int{x, y}] = pe
 		}
-		if p.known["hash.alias"] && site != a.site && (unprefixedSite(site) || unprefixedSite(a.site)) && !(pe.IsConst() && pe.val == 0) {
+		if p.known["hash.alias"] && site != a.site && (unprefixedSite(site) || unprefixedSite(a.site)) && !(pe.IsConst() && pe.val == 0) && aliasExcluded(site, a.site, len(pre)) {
 			// listed finding: preimages of hashing sites without a type prefix can coincide with
 			// preimages of other sites; that region is assumed away, the codes are then distinct
 			p.flags["excluded:hash.alias"] = true
